@@ -548,21 +548,12 @@ theorem scopedHeld_poison (C : Ctx) (S : Shape) (ses : Session) (u' : UserSt) (g
       simp only [wp_done]
       have hunw : ∀ g3, g2.Le g3 → wp PoisonSpec (scopedUnwound ses u') Q (fun (_ : Unit) _ => True) g3 :=
         fun g3 hle3 => scopedUnwound_poison _ _ _ _ (fun r g4 hle4 => hfin r g4 ((hg2.trans hle3).trans hle4) hne)
-      split
-      · rw [wp_bindX]
-        refine poison_frame (hrel _) _ _ _ ?_ (fun _ g3 h => hunw g3 h)
-        intro _ g3 hle3
-        apply dropKeyIf_poison
-        intro g4 hle4
-        exact endMarks_poison _ Q g4 (fun g5 hle5 => hfin _ g5 (((hg2.trans hle3).trans hle4).trans hle5) hne)
-      · apply dropKeyIf_poison
-        intro g3 hle3
-        rw [wp_bindX]
-        refine poison_frame (hrel _) _ _ _ ?_ ?_
-        · intro _ g4 hle4
-          exact endMarks_poison _ Q g4 (fun g5 hle5 => hfin _ g5 (((hg2.trans hle3).trans hle4).trans hle5) hne)
-        · intro _ g4 hle4
-          exact endMarks_poison _ Q g4 (fun g5 hle5 => hfin _ g5 (((hg2.trans hle3).trans hle4).trans hle5) hne)
+      rw [wp_bindX]
+      refine poison_frame (hrel _) _ _ _ ?_ (fun _ g3 h => hunw g3 h)
+      intro _ g3 hle3
+      apply dropKeyIf_poison
+      intro g4 hle4
+      exact endMarks_poison _ Q g4 (fun g5 hle5 => hfin _ g5 (((hg2.trans hle3).trans hle4).trans hle5) hne)
   · intro _ g2 ⟨hle2, hp2⟩
     exact hhandler g2 (hg1.transP hle2) hp2
 
